@@ -93,6 +93,11 @@ def check(ctx):
 
     check_builder(ctx, "C06-f")  # the tabulated Z column is the DAK root for the *supplied* composition
     check_hall_yarbrough(ctx)
+    # ---- C06-j: along the solved equation Z(0) == 1 and pressure is strictly increasing in density over the declared
+    # range: the root is unique, continuous in pressure, and Z -> 1 as p -> 0 (sign decisions by interval branch and bound)
+    from .gasdak import isotherm_rules
+
+    isotherm_rules(ctx, "C06-j")
     ctx.floor("C06", len(ctx.obligs), 3, "DAK obligations")
 
 
